@@ -71,6 +71,8 @@ def specs(tier):
     wide['A'] = {1: [('a', 1.0)], 10: [('abcdefghij', 1.0)], 105: [('k' * 105, 1.0)]}
     wide['C'] = {1: [('L', .5), ('U', .5)], 10: [('L' * 10, .6), ('U' + 'L' * 9, .4)], 105: [('L' * 105, 1.0)]}
     cands.append((wide, [('D10', .3), ('D100', .25), ('A105', .15), ('D1', .1), ('D101', .1), ('A10', .05), ('A1', .05)]))
+    # keyboard walks typed with the shift key, next to their lower-case twins: --all_lower is about capitalisation masks, not about other terminals
+    cands.append((D.TERMINALS[2], [('K4', .5), ('A1', .3), ('D1', .2)]))
     if tier == 'thorough':
         cands += [(big, [('A1', .3), ('A3', .3), ('D1', .2), ('D2', .1), ('K4', .1)]), (t1, [('A1', .5), ('A2', .25), ('D1', .125), ('O1', .125)])]
         # every ordered pair / every ascending triple of word classes of the tie-rich terminal set, with distinct and with tied class probabilities
